@@ -55,8 +55,9 @@ def _worker_classes(logdir):
     P = L.P
 
     class W(P.FunctorWorker):
-        def __init__(self, quota=math.inf, begin_delay=0.0, bad_begin=False, bad_item=None):
+        def __init__(self, quota=math.inf, begin_delay=0.0, bad_begin=False, bad_item=None, end_delay=0.0):
             super().__init__(quota)
+            self.end_delay = end_delay
             self.begin_delay = begin_delay
             self.bad_begin = bad_begin
             self.bad_item = bad_item
@@ -78,6 +79,8 @@ def _worker_classes(logdir):
             self._log("begin_done")
 
         def end(self):
+            if self.end_delay:
+                time.sleep(self.end_delay)      # a slow end(): the worker is still running for a while after its last chunk
             self._log("end")
 
         def __call__(self, x):
@@ -87,15 +90,17 @@ def _worker_classes(logdir):
             return PU.f_ref(x)
 
     class Fac(P.FunctorWorkerFactory):
-        def __init__(self, quota, begin_delays=None):
+        def __init__(self, quota, begin_delays=None, end_delay=0.0, slow_end_first=10 ** 9):
             self.quota = quota
             self.begin_delays = begin_delays or []
+            self.end_delay = end_delay
+            self.slow_end_first = slow_end_first      # only the first k created workers have the slow end()
             self.n = 0
 
         def create(self):
             d = self.begin_delays[self.n] if self.n < len(self.begin_delays) else 0.0
             self.n += 1
-            return W(self.quota, d)
+            return W(self.quota, d, end_delay=self.end_delay if self.n <= self.slow_end_first else 0.0)
 
     return P, W, Fac
 
@@ -163,6 +168,12 @@ def cases(tier, seed):
         for n in range(0, w * q + 1):
             yield {"kind": "lifecycle", "pool": "functor", "workers": w, "quota": q,
                    "calls": [{"ordered": True, "n": n, "cs": 1}]}
+    # slow end(): a retired (replaced) worker is still busy in end() while its successor finishes the work; nobody may be left
+    # running - and no end() may happen - after the context was left
+    for w, q, n in ((1, 2, 3), (2, 1, 3), (1, 1, 2)):
+        yield {"kind": "lifecycle", "pool": "factory", "workers": w, "quota": q, "end_delay": 1.2,
+               "calls": [{"ordered": True, "n": n, "cs": 1}]}
+    yield {"kind": "lifecycle", "pool": "functor", "workers": 2, "quota": None, "end_delay": 0.8, "calls": [{"ordered": True, "n": 3, "cs": 1}]}
     # begin raises ------------------------------------------------------------------------------------------------
     for w in ((2, 3) if quick else (2, 3, 4)):
         for j in range(w):
@@ -181,6 +192,9 @@ def cases(tier, seed):
         for pool in ("functor", "factory"):
             for call in (True, False):
                 yield {"kind": "until-all-ready", "pool": pool, "begin_delays": ds, "call_after": call}
+    # a pool with join_timeout set: until_all_ready must still wait for every begin() (the timeout is for joining only)
+    for pool in ("functor", "factory"):
+        yield {"kind": "until-all-ready", "pool": pool, "begin_delays": [0.0, 1.0], "call_after": False, "join_timeout": 0.3}
     rng = random.Random(seed)
     for _ in range(8 if quick else 100):
         pool = rng.choice(["functor", "factory"])
@@ -197,10 +211,10 @@ def _body_lifecycle(case, logdir):
     quota = math.inf if case["quota"] is None else case["quota"]
     fac = None
     if case["pool"] == "functor":
-        pool = P.FunctorPool([W(quota) for _ in range(case["workers"])])
+        pool = P.FunctorPool([W(quota, end_delay=case.get("end_delay", 0.0)) for _ in range(case["workers"])])
         created = case["workers"]
     else:
-        fac = Fac(quota)
+        fac = Fac(quota, end_delay=case.get("end_delay", 0.0), slow_end_first=case["workers"])
         pool = P.FactoryFunctorPool(case["workers"], fac)
     all_values = []
     chunk_of = {}
@@ -336,10 +350,11 @@ def _body_functor_raises(case, logdir):
 def _body_until_ready(case, logdir):
     P, W, Fac = _worker_classes(logdir)
     ds = case["begin_delays"]
+    kw = {"join_timeout": case["join_timeout"]} if case.get("join_timeout") is not None else {}
     if case["pool"] == "functor":
-        pool = P.FunctorPool([W(begin_delay=d) for d in ds])
+        pool = P.FunctorPool([W(begin_delay=d) for d in ds], **kw)
     else:
-        pool = P.FactoryFunctorPool(len(ds), Fac(math.inf, ds))
+        pool = P.FactoryFunctorPool(len(ds), Fac(math.inf, ds), **kw)
     with pool:
         t0 = time.monotonic()
         pool.until_all_ready()
